@@ -71,18 +71,18 @@ Notation td := (tdict V).
 Lemma sample_add_is_slice (t : td) d j : sample (td_add_c t d) j = slice t d j.
 Proof. reflexivity. Qed.
 
-(* vmap(f, in_dims = d, out_dims = o) = stack([f(slice_j)], o): accepted by the constructor (every leaf shape starts with
+(* the steps after the normalisation of out_dim: accepted by the constructor (every leaf shape starts with
    the new batch size), batch size, names, schema, and EVERY element of every leaf; any rank, any d, any 0 <= o <= rank of
    the per-sample result, any f *)
-Theorem vmap1_eq_loop (f : td -> td) (t : td) d o :
+Lemma raw_eq_loop (f : td -> td) (t : td) d o :
   o <= length (bs (f (slice t d 0))) ->
-  exists R, vmap1 f d (Z.of_nat o) t = Ok R
+  exists R, td_remove_raw (lift f (td_add_c t d)) (Z.of_nat o) = Ok R
     /\ bs R = insert_at (bs (f (slice t d 0))) o (nth d (bs t) 0)
     /\ nms R = names_remove (nms (f (slice t d 0))) (Z.of_nat o)
     /\ schema R = schema (f (slice t d 0))
     /\ forall k I, val R k I = stack_val (fun j => f (slice t d j)) o k I.
 Proof.
-  intros Ho. unfold vmap1, td_remove_c.
+  intros Ho. unfold td_remove_raw.
   set (bt := lift f (td_add_c t d)).
   assert (Hb : bbs bt = bs (f (slice t d 0))) by reflexivity.
   assert (HB : hidB bt = nth d (bs t) 0) by reflexivity.
@@ -102,13 +102,46 @@ Proof.
     destruct (find_feat k (bschema bt)); rewrite torch_wrap_nonneg by (rewrite Hb; lia); reflexivity.
 Qed.
 
-(* the same, addressed by (sample j, element r of the per-sample result) *)
-Corollary vmap1_elements (f : td -> td) (t : td) d o :
-  o <= length (bs (f (slice t d 0))) ->
-  exists R, vmap1 f d (Z.of_nat o) t = Ok R /\
-    forall k j r, o <= length r -> val R k (insert_at r o j) = val (f (slice t d j)) k r.
+(* vmap(f, in_dims = d, out_dims = o) = stack([f(slice_j)], o) for EVERY out_dim that names a position of the result, the
+   negative ones included (p = the position o names, torch's rule): accepted, batch size, names, schema, and every element
+   of every leaf; any rank, any d, any f *)
+Theorem vmap1_eq_loop (f : td -> td) (t : td) d (o : Z) p :
+  torch_wrap o (length (bs (f (slice t d 0))) + 1) = Some p ->
+  exists R, vmap1 f d o t = Ok R
+    /\ bs R = insert_at (bs (f (slice t d 0))) p (nth d (bs t) 0)
+    /\ nms R = names_remove (nms (f (slice t d 0))) (Z.of_nat p)
+    /\ schema R = schema (f (slice t d 0))
+    /\ forall k I, val R k I = stack_val (fun j => f (slice t d j)) p k I.
 Proof.
-  intros Ho. destruct (vmap1_eq_loop f t d o Ho) as [R [E [_ [_ [_ Hv]]]]].
+  intros Hw. unfold vmap1, td_remove_c.
+  change (bbs (lift f (td_add_c t d))) with (bs (f (slice t d 0))). rewrite Hw.
+  apply raw_eq_loop. apply torch_wrap_spec in Hw. lia.
+Qed.
+
+(* an out_dim that names no position of the result is refused, whatever the sizes *)
+Theorem out_of_range_out_dim_raises (f : td -> td) (t : td) d (o : Z) :
+  torch_wrap o (length (bs (f (slice t d 0))) + 1) = None -> vmap1 f d o t = Raise IndexErr.
+Proof.
+  intros Hw. unfold vmap1, td_remove_c.
+  change (bbs (lift f (td_add_c t d))) with (bs (f (slice t d 0))). now rewrite Hw.
+Qed.
+
+Corollary vmap1_eq_loop_nat (f : td -> td) (t : td) d o :
+  o <= length (bs (f (slice t d 0))) ->
+  exists R, vmap1 f d (Z.of_nat o) t = Ok R
+    /\ bs R = insert_at (bs (f (slice t d 0))) o (nth d (bs t) 0)
+    /\ nms R = names_remove (nms (f (slice t d 0))) (Z.of_nat o)
+    /\ schema R = schema (f (slice t d 0))
+    /\ forall k I, val R k I = stack_val (fun j => f (slice t d j)) o k I.
+Proof. intros Ho. apply vmap1_eq_loop. apply torch_wrap_nonneg. lia. Qed.
+
+(* the same, addressed by (sample j, element r of the per-sample result) *)
+Corollary vmap1_elements (f : td -> td) (t : td) d (o : Z) p :
+  torch_wrap o (length (bs (f (slice t d 0))) + 1) = Some p ->
+  exists R, vmap1 f d o t = Ok R /\
+    forall k j r, p <= length r -> val R k (insert_at r p j) = val (f (slice t d j)) k r.
+Proof.
+  intros Ho. destruct (vmap1_eq_loop f t d o p Ho) as [R [E [_ [_ [_ Hv]]]]].
   exists R. split; [exact E|]. intros k j r Hr. rewrite Hv. unfold stack_val.
   rewrite nth_insert_at_same by assumption. rewrite remove_insert_at by assumption. reflexivity.
 Qed.
@@ -142,10 +175,10 @@ Proof.
   assert (Hin : forall j1, exists R', vmap1_total f d2 (Z.of_nat o2) (slice t d1 j1) = R'
      /\ bs R' = insert_at (bs (f (slice (slice t d1 j1) d2 0))) o2 (nth d2 (remove_nth (bs t) d1) 0)
      /\ forall k I, val R' k I = stack_val (fun j => f (slice (slice t d1 j1) d2 j)) o2 k I).
-  { intros j1. destruct (vmap1_eq_loop f (slice t d1 j1) d2 o2 (H2 j1)) as [R' [E [Hb [_ [_ Hv]]]]].
+  { intros j1. destruct (vmap1_eq_loop_nat f (slice t d1 j1) d2 o2 (H2 j1)) as [R' [E [Hb [_ [_ Hv]]]]].
     exists R'. unfold vmap1_total. rewrite E. split; [reflexivity|]. split; [exact Hb|exact Hv]. }
   destruct (Hin 0) as [R0 [E0 [Hb0 _]]].
-  destruct (vmap1_eq_loop (vmap1_total f d2 (Z.of_nat o2)) t d1 o1) as [R [E [Hb [_ [_ Hv]]]]].
+  destruct (vmap1_eq_loop_nat (vmap1_total f d2 (Z.of_nat o2)) t d1 o1) as [R [E [Hb [_ [_ Hv]]]]].
   { rewrite E0, Hb0, length_insert_at. exact H1. }
   exists R. split; [exact E|]. split.
   - rewrite Hb, E0, Hb0. reflexivity.
@@ -155,22 +188,16 @@ Qed.
 
 End ContentP.
 
-(* ---- what the list.insert / torch-wrap mix does outside 0 <= out_dim <= rank (S8): concrete witnesses ---- *)
+(* ---- the former witnesses of D190 / D191 (S8), now on the right side ---- *)
 Definition w_td : tdict (list nat) := addr_td [3; 3] None [(0, [3])].
 
-(* out_dims = -1 names the LAST position of the result (torch.stack(slices, -1)); the call is accepted (sizes coincide)
-   and returns a tensordict whose elements are NOT those of the stack of the slices *)
-Theorem negative_out_dim_silently_wrong :
+Example negative_out_dim_right :
   exists R, vmap1 (fun s => s) 0 (-1) w_td = Ok R /\ bs R = [3; 3] /\
-    val R 0 [0; 1; 2] <> stack_val (fun j => slice w_td 0 j) 1 0 [0; 1; 2].
-Proof. eexists. split; [vm_compute; reflexivity|]. split; [reflexivity|]. vm_compute. discriminate. Qed.
+    val R 0 [0; 1; 2] = stack_val (fun j => slice w_td 0 j) 1 0 [0; 1; 2]
+  /\ exists R', vmap1 (fun s => s) 0 (-1) (addr_td [2; 3] None [(0, [4])]) = Ok R' /\ bs R' = [3; 2].
+Proof. eexists. split; [vm_compute; reflexivity|]. split; [reflexivity|]. split; [reflexivity|].
+  eexists. split; [vm_compute; reflexivity|reflexivity]. Qed.
 
-(* ... and in general it raises (leaf shape no longer starts with the batch size) *)
-Theorem negative_out_dim_raises :
-  vmap1 (fun s => s) 0 (-1) (addr_td [2; 3] None [(0, [4])]) = Raise RuntimeErr.
-Proof. vm_compute. reflexivity. Qed.
-
-(* out_dims = rank + 1 (not a position of the result) is accepted when the first feature dim has the batch's size *)
-Theorem too_large_out_dim_accepted :
-  exists R, vmap1 (fun s => s) 0 2 (addr_td [2; 3] None [(0, [2])]) = Ok R /\ bs R = [3; 2].
-Proof. eexists. split; [vm_compute; reflexivity|reflexivity]. Qed.
+Example too_large_out_dim_refused :
+  vmap1 (fun s => s) 0 2 (addr_td [2; 3] None [(0, [2])]) = Raise IndexErr.
+Proof. reflexivity. Qed.
